@@ -162,10 +162,13 @@ fn lookup_sys(cols: usize, k: usize, deg: usize, variant: &str) -> Sys {
                 filters[1] = Some(single(sels[0]));
             }
         }
-        "table_next" => {} // table column declared on the next row: see cmd_probe
+        "table_next" | "freq_next" => {}
         v => panic!("variant {v}"),
     }
-    Sys { cols, npi: 0, deg, cons: vec![], lookups: vec![LookupDecl { looking, table: single(t), freq: single(m), filters }], ctl: false }
+    // probes: the table / frequency column declared on the NEXT row (permitted by the `Column` API)
+    let table = if variant == "table_next" { ce(&[], &[(t, 1)], 0) } else { single(t) };
+    let freq = if variant == "freq_next" { ce(&[], &[(m, 1)], 0) } else { single(m) };
+    Sys { cols, npi: 0, deg, cons: vec![], lookups: vec![LookupDecl { looking, table, freq, filters }], ctl: false }
 }
 
 /// a trace satisfying the lookup of `sys` (checked by the caller with the reference predicate)
@@ -231,8 +234,10 @@ fn lookup_trace(sys: &Sys, n: usize, r: &mut impl Rng) -> Vec<Vec<u64>> {
             let w = filter_ref(f, &tr, row, P);
             let v = colexpr_ref(&l.looking[i], &tr, row, P);
             if w != 0 {
-                if let Some(first) = (0..n).find(|&q| tr[q][t] == v) {
-                    tr[first][m] = addm(tr[first][m], w, P);
+                if let Some(first) = (0..n).find(|&q| colexpr_ref(&l.table, &tr, q, P) == v) {
+                    // the row whose declared frequency expression is read at `first`
+                    let fr_row = if l.freq.next.is_empty() { first } else { (first + 1) % n };
+                    tr[fr_row][m] = addm(tr[fr_row][m], w, P);
                 }
             }
         }
@@ -474,25 +479,30 @@ fn ctl_traces(decls: &[CtlDecl], n_bits: &[usize], r: &mut impl Rng) -> Vec<Vec<
     // looked sides: fill from the top with the tuples the reference evaluator reports as unmatched
     for d in decls {
         let t = d.looked.table;
-        let mut probe = d.clone();
-        probe.looked.filter = Some(ColExpr { lin: vec![], next: vec![], k: 0 }); // nothing counted on the looked side
         let mut need: Vec<Vec<u64>> = vec![];
-        // expand the multiset (weights are small counts here)
-        let mut w: std::collections::BTreeMap<Vec<u64>, u64> = Default::default();
-        for s in &probe.looking {
+        // the multiset still unmatched on the looked side (weights are small counts here)
+        let mut w: std::collections::BTreeMap<Vec<u64>, i64> = Default::default();
+        for s in &d.looking {
             for row in 0..traces[s.table].len() {
                 let f = filter_ref(&s.filter, &traces[s.table], row, P);
                 if f != 0 {
                     let tup: Vec<u64> = s.cols.iter().map(|c| colexpr_ref(c, &traces[s.table], row, P)).collect();
-                    *w.entry(tup).or_insert(0) += f;
+                    *w.entry(tup).or_insert(0) += f as i64;
                 }
             }
         }
         for x in &d.extra {
             *w.entry(x.clone()).or_insert(0) += 1;
         }
+        for row in 0..traces[t].len() {
+            let f = filter_ref(&d.looked.filter, &traces[t], row, P);
+            if f != 0 {
+                let tup: Vec<u64> = d.looked.cols.iter().map(|c| colexpr_ref(c, &traces[t], row, P)).collect();
+                *w.entry(tup).or_insert(0) -= f as i64;
+            }
+        }
         for (tup, cnt) in w {
-            for _ in 0..cnt {
+            for _ in 0..cnt.max(0) {
                 need.push(tup.clone());
             }
         }
@@ -507,6 +517,29 @@ fn ctl_traces(decls: &[CtlDecl], n_bits: &[usize], r: &mut impl Rng) -> Vec<Vec<
     traces
 }
 
+/// a table that looks into itself: tuples (a), looking rows have f = 1 (column 2), looked rows have b = 1 (column 1)
+fn self_ctl_traces(n_bits: &[usize], r: &mut impl Rng) -> Vec<Vec<Vec<u64>>> {
+    n_bits
+        .iter()
+        .map(|&b| {
+            let n = 1usize << b;
+            let k = (n / 2).min(3);
+            let vals: Vec<u64> = (0..k).map(|_| r.gen::<u64>() % 1000).collect();
+            (0..n)
+                .map(|row| {
+                    if row < k {
+                        vec![vals[row], 0, 1]
+                    } else if row < 2 * k {
+                        vec![vals[row - k], 1, 0]
+                    } else {
+                        vec![r.gen::<u64>() % P, 0, 0]
+                    }
+                })
+                .collect()
+        })
+        .collect()
+}
+
 /// case: {id, n_bits: [..], deg, binary, config, ctls: [..], action}
 fn ctl_case<const NT: usize>(case: &Value, out: &mut Out, flip: bool) {
     let decls: Vec<CtlDecl> = case["ctls"].as_array().unwrap().iter().map(CtlDecl::from_json).collect();
@@ -517,7 +550,7 @@ fn ctl_case<const NT: usize>(case: &Value, out: &mut Out, flip: bool) {
     let config = config_from(&case["config"]);
     let id = case["id"].as_str().unwrap_or("?");
     let mut r = rng(hash_id(id));
-    let mut traces = ctl_traces(&decls, &n_bits, &mut r);
+    let mut traces = if case["shape"].as_str() == Some("S1") { self_ctl_traces(&n_bits, &mut r) } else { ctl_traces(&decls, &n_bits, &mut r) };
     let honest_bad: usize = decls.iter().map(|d| ctl_bad_tuples(d, &traces, P).len()).sum();
     if honest_bad != 0 && case["allow_unsat"].as_bool() != Some(true) {
         out.conflicts.push(json!({"id": id, "what": "the generated honest traces do not satisfy the multiset predicate", "bad": honest_bad}));
